@@ -333,6 +333,7 @@ def check_c14(case, rec, m, tally):
     if [t for t, k in rec['clock']] != clock:
         oracle.append(dict(what='the session clock differs from open/close events on the Monday-Friday dates of [start, end]: extra %r, missing %r' % (
             [t for t, k in rec['clock'] if t not in clock][:4], [t for t in clock if t not in [x for x, k in rec['clock']]][:4]), key='session-clock'))
+    oracle += check_schedule(case, rec)
     sched = set(rec['schedule'])
     limit = rec['err'][0] if rec['err'] is not None else None
 
@@ -428,6 +429,20 @@ def check_c14(case, rec, m, tally):
             if [d for d, r in tbl] != [d for d, r in m['table']]:
                 mism.append(dict(what='allocation table dates', impl=[d for d, r in tbl][:6], model=[d for d, r in m['table']][:6]))
     return mism, oracle, status
+
+
+def check_schedule(case, rec):
+    """the session's rebalance schedule is the configured kind's schedule over [start, end] (independent calendar, as K1)"""
+    import k1
+    if rec['construct'] != 'ok' or rec.get('schedule') is None:
+        return []
+    kind = {'weekly': 'weekly', 'daily': 'daily', 'end_of_month': 'eom', 'buy_and_hold': 'bh'}[case['rebalance']]
+    kc = dict(kind=kind, start=case['start'], end=case['end'], wd=case.get('weekday', 'WED'), pre=False)
+    out = k1.oracle_c13(kc, dict(out='ok', times=list(rec['schedule']), clock=[t for t, k in rec['clock']]))
+    for f in out:
+        f['what'] = 'session schedule: ' + f['what']
+        f['key'] = 'session-' + f['key']
+    return out
 
 
 # ---------------------------------------------------------------------------------------------
@@ -811,7 +826,7 @@ def nontrivial(case, rec):
     return rec['construct'] == 'ok' and bool(rec['txns'])
 
 
-FAMILY = dict(C08='fixed', C14='any', C07='any', C18='any', C16='signal', C19='dynamic', C09='any')
+FAMILY = dict(C08='fixed', C14='any', C07='any', C18='any', C16='signal', C19='dynamic', C09='any', C13='any')
 
 
 def run_batch(prop, tier, rng, cases, n_corpus):
@@ -858,6 +873,8 @@ def run_batch(prop, tier, rng, cases, n_corpus):
             mm, oo, status = check_c08(c, r, m, tally)
         elif prop == 'C14':
             mm, oo, status = check_c14(c, r, m, tally)
+        elif prop == 'C13':
+            oo = check_schedule(c, r)
         elif prop == 'C07':
             cut, r2, r3 = pairs[i]
             oo = check_c07(c, r, r2, cut)
